@@ -37,10 +37,10 @@ type pcFail struct {
 
 type pcStats struct {
 	Programs, Outside, Nontrivial, Inconclusive int
-	PStates, PTrans                              int
-	ByStratum                                    map[string]int
-	Fails                                        int
-	Outputs                                      map[string]bool `json:"-"`
+	PStates, PTrans                             int
+	ByStratum                                   map[string]int
+	Fails                                       int
+	Outputs                                     map[string]bool `json:"-"`
 }
 
 type pcIn struct {
@@ -189,7 +189,7 @@ func (pc progCheck) run(r *core.Run) (res pcResult, cleanup func()) {
 	deaths = append(deaths, d2...)
 	type confRes struct {
 		Text, In, Cli string
-		Agree        bool
+		Agree         bool
 	}
 	conf, d3 := core.Parallel(r, "conf", pcIn{Dir: dir, Spec: pc.ConfSpec}, r.Workers, func(in pcIn, shard, n int, emit func(confRes)) {
 		root := inproc.NewRoot(in.Dir)
